@@ -69,6 +69,9 @@ type EBytesReader struct {
 	Pos  int
 }
 
+// poison marks a value the evaluator could not compute while running a package initialiser tolerantly.
+type poison struct{}
+
 // EErr is a non-nil error value (what it says is not modelled).
 type EErr struct{ Msg string }
 
@@ -127,8 +130,11 @@ type Evaluator struct {
 	// Invoke, when set, answers interface method calls (recv is the value the interface holds).
 	Invoke func(method string, recv any, args []any) (res any, err *EvalError, handled bool)
 	// Global, when set, gives the value of a package-level variable of another package (io.EOF).
-	Global func(pkg, name string) (any, bool)
-	bufs   map[*EPtr]*[]byte // contents of the bytes.Buffer / strings.Builder locals, by their address
+	Global   func(pkg, name string) (any, bool)
+	tolerant bool                  // running a package initialiser: an instruction that cannot be evaluated poisons its result
+	globals  map[*ssa.Global]*ELoc // package-level variables of the module, after their package's initialiser ran
+	inited   map[*ssa.Package]bool
+	bufs     map[*EStruct]*[]byte // contents of the bytes.Buffer / strings.Builder values, by the struct value they live in
 }
 
 func NewEvaluator() *Evaluator { return &Evaluator{Steps: 200000, MaxDepth: 12} }
@@ -285,11 +291,21 @@ func (ev *Evaluator) callWith(fn *ssa.Function, args []any, free []any, depth in
 					return &EPtr{Get: func() any { return ErrUnexpectedEOF }, Set: func(any) {}}, nil
 				}
 			}
+			if x.Pkg != nil && strings.HasPrefix(x.Pkg.Pkg.Path(), ModPath) {
+				loc, e := ev.globalCell(x)
+				if e != nil {
+					return nil, e
+				}
+				return &EPtr{Get: func() any { return loc.V }, Set: func(v any) { loc.V = v }}, nil
+			}
 			return nil, notEval("global %s", x.Name())
 		}
 		r, ok := env[v]
 		if !ok {
 			return nil, notEval("value %s not computed", v.Name())
+		}
+		if _, bad := r.(poison); bad {
+			return nil, notEval("value %s depends on something the evaluator could not compute", v.Name())
 		}
 		return r, nil
 	}
@@ -328,524 +344,547 @@ func (ev *Evaluator) callWith(fn *ssa.Function, args []any, free []any, depth in
 			if ev.Steps < 0 {
 				return nil, notEval("step budget used up (a loop that does not end on this input?)")
 			}
-			switch x := in.(type) {
-			case *ssa.Phi, *ssa.DebugRef:
-			case *ssa.BinOp:
-				l, e := val(x.X)
-				if e != nil {
-					return nil, e
-				}
-				r, e := val(x.Y)
-				if e != nil {
-					return nil, e
-				}
-				o, e := binop(x, l, r)
-				if e != nil {
-					return nil, e
-				}
-				env[x] = o
-			case *ssa.UnOp:
-				o, e := val(x.X)
-				if e != nil {
-					return nil, e
-				}
-				switch x.Op {
-				case token.NOT:
-					bv, ok := o.(bool)
-					if !ok {
-						return nil, notEval("! of non-bool")
+			ret, returned, serr := func() (any, bool, *EvalError) {
+				switch x := in.(type) {
+				case *ssa.Phi, *ssa.DebugRef:
+				case *ssa.BinOp:
+					l, e := val(x.X)
+					if e != nil {
+						return nil, false, e
 					}
-					env[x] = !bv
-				case token.SUB:
-					if fv, isF := o.(float64); isF {
-						env[x] = -fv
-						break
+					r, e := val(x.Y)
+					if e != nil {
+						return nil, false, e
 					}
-					iv, ok := o.(int64)
-					if !ok {
-						return nil, notEval("- of non-int")
+					o, e := binop(x, l, r)
+					if e != nil {
+						return nil, false, e
 					}
-					env[x] = wrapInt(x.Type(), -iv)
-				case token.XOR:
-					iv, ok := o.(int64)
-					if !ok {
-						return nil, notEval("^ of non-int")
+					env[x] = o
+				case *ssa.UnOp:
+					o, e := val(x.X)
+					if e != nil {
+						return nil, false, e
 					}
-					env[x] = wrapInt(x.Type(), ^iv)
-				case token.MUL:
-					p, ok := o.(*EPtr)
+					switch x.Op {
+					case token.NOT:
+						bv, ok := o.(bool)
+						if !ok {
+							return nil, false, notEval("! of non-bool")
+						}
+						env[x] = !bv
+					case token.SUB:
+						if fv, isF := o.(float64); isF {
+							env[x] = -fv
+							break
+						}
+						iv, ok := o.(int64)
+						if !ok {
+							return nil, false, notEval("- of non-int")
+						}
+						env[x] = wrapInt(x.Type(), -iv)
+					case token.XOR:
+						iv, ok := o.(int64)
+						if !ok {
+							return nil, false, notEval("^ of non-int")
+						}
+						env[x] = wrapInt(x.Type(), ^iv)
+					case token.MUL:
+						p, ok := o.(*EPtr)
+						if !ok || p == nil {
+							if o == nil {
+								return nil, false, panics("nil pointer dereference")
+							}
+							return nil, false, notEval("load through %T", o)
+						}
+						env[x] = copyVal(p.Get())
+					default:
+						return nil, false, notEval("unary %s", x.Op)
+					}
+				case *ssa.Alloc:
+					loc := &ELoc{ZeroOf(x.Type().Underlying().(*types.Pointer).Elem())}
+					env[x] = &EPtr{Get: func() any { return loc.V }, Set: func(v any) { loc.V = v }}
+				case *ssa.Store:
+					a, e := val(x.Addr)
+					if e != nil {
+						return nil, false, e
+					}
+					v, e := val(x.Val)
+					if e != nil {
+						return nil, false, e
+					}
+					p, ok := a.(*EPtr)
 					if !ok || p == nil {
-						if o == nil {
-							return nil, panics("nil pointer dereference")
-						}
-						return nil, notEval("load through %T", o)
+						return nil, false, panics("store through nil")
 					}
-					env[x] = copyVal(p.Get())
-				default:
-					return nil, notEval("unary %s", x.Op)
-				}
-			case *ssa.Alloc:
-				loc := &ELoc{ZeroOf(x.Type().Underlying().(*types.Pointer).Elem())}
-				env[x] = &EPtr{Get: func() any { return loc.V }, Set: func(v any) { loc.V = v }}
-			case *ssa.Store:
-				a, e := val(x.Addr)
-				if e != nil {
-					return nil, e
-				}
-				v, e := val(x.Val)
-				if e != nil {
-					return nil, e
-				}
-				p, ok := a.(*EPtr)
-				if !ok || p == nil {
-					return nil, panics("store through nil")
-				}
-				p.Set(copyVal(v))
-			case *ssa.FieldAddr:
-				a, e := val(x.X)
-				if e != nil {
-					return nil, e
-				}
-				p, ok := a.(*EPtr)
-				if !ok || p == nil {
-					return nil, panics("field of nil")
-				}
-				fi := x.Field
-				env[x] = &EPtr{
-					Get: func() any { return p.Get().(*EStruct).F[fi] },
-					Set: func(v any) { p.Get().(*EStruct).F[fi] = v },
-				}
-				if _, isS := p.Get().(*EStruct); !isS {
-					return nil, notEval("field of %T", p.Get())
-				}
-			case *ssa.Field:
-				a, e := val(x.X)
-				if e != nil {
-					return nil, e
-				}
-				s, ok := a.(*EStruct)
-				if !ok {
-					return nil, notEval("field of %T", a)
-				}
-				env[x] = copyVal(s.F[x.Field])
-			case *ssa.IndexAddr:
-				a, e := val(x.X)
-				if e != nil {
-					return nil, e
-				}
-				iv, e := val(x.Index)
-				if e != nil {
-					return nil, e
-				}
-				i, ok := iv.(int64)
-				if !ok {
-					return nil, notEval("index %T", iv)
-				}
-				var sl *ESlice
-				switch s := a.(type) {
-				case *ESlice:
-					sl = s
-				case *EPtr: // pointer to array
-					if s != nil {
-						sl, _ = s.Get().(*ESlice)
-					}
-				}
-				if sl == nil {
-					return nil, notEval("index of %T", a)
-				}
-				if i < 0 || i >= int64(len(sl.L)) {
-					return nil, panics("index out of range [%d] with length %d", i, len(sl.L))
-				}
-				loc := sl.L[i]
-				env[x] = &EPtr{Get: func() any { return loc.V }, Set: func(v any) { loc.V = v }}
-			case *ssa.Index:
-				a, e := val(x.X)
-				if e != nil {
-					return nil, e
-				}
-				iv, e := val(x.Index)
-				if e != nil {
-					return nil, e
-				}
-				i, _ := iv.(int64)
-				if str, isStr := a.(string); isStr {
-					if i < 0 || i >= int64(len(str)) {
-						return nil, panics("index out of range [%d] with length %d", i, len(str))
-					}
-					env[x] = int64(str[i])
-					break
-				}
-				sl, ok := a.(*ESlice)
-				if !ok {
-					return nil, notEval("index of %T", a)
-				}
-				if i < 0 || i >= int64(len(sl.L)) {
-					return nil, panics("index out of range [%d] with length %d", i, len(sl.L))
-				}
-				env[x] = copyVal(sl.L[i].V)
-			case *ssa.Lookup:
-				a, e := val(x.X)
-				if e != nil {
-					return nil, e
-				}
-				if _, isMapT := x.X.Type().Underlying().(*types.Map); isMapT {
-					kv, e := val(x.Index)
+					p.Set(copyVal(v))
+				case *ssa.FieldAddr:
+					a, e := val(x.X)
 					if e != nil {
-						return nil, e
+						return nil, false, e
 					}
-					var got any
-					found := false
-					if m, ok := a.(*EMap); ok && m != nil {
-						k, okk := mapKey(kv)
-						if !okk {
-							return nil, notEval("map key %T", kv)
-						}
-						got, found = m.M[k]
+					p, ok := a.(*EPtr)
+					if !ok || p == nil {
+						return nil, false, panics("field of nil")
 					}
-					if !found {
-						got = ZeroOf(x.X.Type().Underlying().(*types.Map).Elem())
+					fi := x.Field
+					env[x] = &EPtr{
+						Get: func() any { return p.Get().(*EStruct).F[fi] },
+						Set: func(v any) { p.Get().(*EStruct).F[fi] = v },
 					}
-					if x.CommaOk {
-						env[x] = ETuple{copyVal(got), found}
-					} else {
-						env[x] = copyVal(got)
+					if _, isS := p.Get().(*EStruct); !isS {
+						return nil, false, notEval("field of %T", p.Get())
 					}
-					break
-				}
-				s, ok := a.(string)
-				if !ok {
-					return nil, notEval("lookup in %T", a)
-				}
-				iv, e := val(x.Index)
-				if e != nil {
-					return nil, e
-				}
-				i, _ := iv.(int64)
-				if i < 0 || i >= int64(len(s)) {
-					return nil, panics("index out of range [%d] with length %d", i, len(s))
-				}
-				env[x] = int64(s[i])
-			case *ssa.Slice:
-				a, e := val(x.X)
-				if e != nil {
-					return nil, e
-				}
-				get := func(v ssa.Value, def int64) (int64, *EvalError) {
-					if v == nil {
-						return def, nil
-					}
-					r, e := val(v)
+				case *ssa.Field:
+					a, e := val(x.X)
 					if e != nil {
-						return 0, e
+						return nil, false, e
 					}
-					i, ok := r.(int64)
+					s, ok := a.(*EStruct)
 					if !ok {
-						return 0, notEval("slice bound %T", r)
+						return nil, false, notEval("field of %T", a)
 					}
-					return i, nil
-				}
-				switch s := a.(type) {
-				case string:
-					lo, e := get(x.Low, 0)
+					env[x] = copyVal(s.F[x.Field])
+				case *ssa.IndexAddr:
+					a, e := val(x.X)
 					if e != nil {
-						return nil, e
+						return nil, false, e
 					}
-					hi, e := get(x.High, int64(len(s)))
+					iv, e := val(x.Index)
 					if e != nil {
-						return nil, e
+						return nil, false, e
 					}
-					if lo < 0 || hi < lo || hi > int64(len(s)) {
-						return nil, panics("slice bounds out of range [%d:%d] with length %d", lo, hi, len(s))
+					i, ok := iv.(int64)
+					if !ok {
+						return nil, false, notEval("index %T", iv)
 					}
-					env[x] = s[lo:hi]
-				case *ESlice, *EPtr:
 					var sl *ESlice
-					if p, isP := s.(*EPtr); isP {
-						if p != nil {
-							sl, _ = p.Get().(*ESlice)
+					switch s := a.(type) {
+					case *ESlice:
+						sl = s
+					case *EPtr: // pointer to array
+						if s != nil {
+							sl, _ = s.Get().(*ESlice)
 						}
-					} else {
-						sl = s.(*ESlice)
 					}
 					if sl == nil {
-						return nil, notEval("slice of %T", a)
+						return nil, false, notEval("index of %T", a)
 					}
-					lo, e := get(x.Low, 0)
+					if i < 0 || i >= int64(len(sl.L)) {
+						return nil, false, panics("index out of range [%d] with length %d", i, len(sl.L))
+					}
+					loc := sl.L[i]
+					env[x] = &EPtr{Get: func() any { return loc.V }, Set: func(v any) { loc.V = v }}
+				case *ssa.Index:
+					a, e := val(x.X)
 					if e != nil {
-						return nil, e
+						return nil, false, e
 					}
-					hi, e := get(x.High, int64(len(sl.L)))
+					iv, e := val(x.Index)
 					if e != nil {
-						return nil, e
+						return nil, false, e
 					}
-					if lo < 0 || hi < lo || hi > int64(cap(sl.L)) {
-						return nil, panics("slice bounds out of range [%d:%d] with capacity %d", lo, hi, cap(sl.L))
-					}
-					env[x] = &ESlice{L: sl.L[lo:hi]}
-				default:
-					return nil, notEval("slice of %T", a)
-				}
-			case *ssa.MakeSlice:
-				lv, e := val(x.Len)
-				if e != nil {
-					return nil, e
-				}
-				n, _ := lv.(int64)
-				if n < 0 || n > 1<<20 {
-					return nil, panics("makeslice: len out of range")
-				}
-				sl := &ESlice{}
-				el := x.Type().Underlying().(*types.Slice).Elem()
-				for i := int64(0); i < n; i++ {
-					sl.L = append(sl.L, &ELoc{ZeroOf(el)})
-				}
-				env[x] = sl
-			case *ssa.Convert:
-				o, e := val(x.X)
-				if e != nil {
-					return nil, e
-				}
-				r, e := convert(x, o)
-				if e != nil {
-					return nil, e
-				}
-				env[x] = r
-			case *ssa.ChangeType:
-				o, e := val(x.X)
-				if e != nil {
-					return nil, e
-				}
-				env[x] = o
-			case *ssa.MakeInterface:
-				o, e := val(x.X)
-				if e != nil {
-					return nil, e
-				}
-				if _, isI := x.X.Type().Underlying().(*types.Interface); isI || o == nil && isPointerLike(x.X.Type()) && false {
-					env[x] = o
-				} else if _, already := o.(*EIface); already {
-					env[x] = o
-				} else {
-					env[x] = &EIface{T: x.X.Type(), V: o}
-				}
-			case *ssa.ChangeInterface:
-				o, e := val(x.X)
-				if e != nil {
-					return nil, e
-				}
-				env[x] = o
-			case *ssa.TypeAssert:
-				o, e := val(x.X)
-				if e != nil {
-					return nil, e
-				}
-				var res any
-				ok := false
-				switch v := o.(type) {
-				case nil:
-				case *EIface:
-					if it, isI := x.AssertedType.Underlying().(*types.Interface); isI {
-						if types.Implements(v.T, it) {
-							res, ok = v, true
+					i, _ := iv.(int64)
+					if str, isStr := a.(string); isStr {
+						if i < 0 || i >= int64(len(str)) {
+							return nil, false, panics("index out of range [%d] with length %d", i, len(str))
 						}
-					} else if types.Identical(v.T, x.AssertedType) {
-						res, ok = v.V, true
-					}
-				default:
-					return nil, notEval("type assertion on %T", o)
-				}
-				if x.CommaOk {
-					if !ok {
-						res = ZeroOf(x.AssertedType)
-					}
-					env[x] = ETuple{res, ok}
-				} else {
-					if !ok {
-						return nil, panics("interface conversion fails")
-					}
-					env[x] = res
-				}
-			case *ssa.MakeMap:
-				env[x] = &EMap{M: map[any]any{}}
-			case *ssa.MapUpdate:
-				mv, e := val(x.Map)
-				if e != nil {
-					return nil, e
-				}
-				kv, e := val(x.Key)
-				if e != nil {
-					return nil, e
-				}
-				vv, e := val(x.Value)
-				if e != nil {
-					return nil, e
-				}
-				m, ok := mv.(*EMap)
-				if !ok || m == nil {
-					return nil, panics("assignment to entry in nil map")
-				}
-				k, okk := mapKey(kv)
-				if !okk {
-					return nil, notEval("map key %T", kv)
-				}
-				if _, had := m.M[k]; !had {
-					m.Keys = append(m.Keys, k)
-				}
-				m.M[k] = copyVal(vv)
-			case *ssa.MakeClosure:
-				cl := &EClosure{Fn: x.Fn.(*ssa.Function)}
-				for _, b := range x.Bindings {
-					bv, e := val(b)
-					if e != nil {
-						return nil, e
-					}
-					cl.Free = append(cl.Free, bv)
-				}
-				env[x] = cl
-			case *ssa.Range:
-				o, e := val(x.X)
-				if e != nil {
-					return nil, e
-				}
-				if m, isM := o.(*EMap); isM || (o == nil && isMapType(x.X.Type())) {
-					it := &mapIter{m: m}
-					if m != nil {
-						it.keys = append(it.keys, m.Keys...)
-						sort.SliceStable(it.keys, func(i, j int) bool { return fmt.Sprint(it.keys[i]) < fmt.Sprint(it.keys[j]) })
-					}
-					env[x] = it
-					break
-				}
-				str, ok := o.(string)
-				if !ok {
-					return nil, notEval("range over %T", o)
-				}
-				env[x] = &strIter{s: str}
-			case *ssa.Next:
-				o, e := val(x.Iter)
-				if e != nil {
-					return nil, e
-				}
-				if mi, isM := o.(*mapIter); isM {
-					for mi.pos < len(mi.keys) {
-						k := mi.keys[mi.pos]
-						mi.pos++
-						if v, still := mi.m.M[k]; still {
-							env[x] = ETuple{true, k, copyVal(v)}
-							goto nextDone
-						}
-					}
-					env[x] = ETuple{false, nil, nil}
-				nextDone:
-					break
-				}
-				it, ok := o.(*strIter)
-				if !ok || !x.IsString {
-					return nil, notEval("next of %T", o)
-				}
-				if it.pos >= len(it.s) {
-					env[x] = ETuple{false, int64(0), int64(0)}
-				} else {
-					r, w := utf8.DecodeRuneInString(it.s[it.pos:])
-					env[x] = ETuple{true, int64(it.pos), int64(r)}
-					it.pos += w
-				}
-			case *ssa.Defer:
-				// arguments are evaluated now, the call is made when the function returns
-				cc := x.Call
-				frozen := map[ssa.Value]any{}
-				okAll := true
-				for _, a := range cc.Args {
-					v, e := val(a)
-					if e != nil {
-						okAll = false
+						env[x] = int64(str[i])
 						break
 					}
-					frozen[a] = v
-				}
-				var fv any
-				if okAll && cc.StaticCallee() == nil && !cc.IsInvoke() {
-					v, e := val(cc.Value)
+					sl, ok := a.(*ESlice)
+					if !ok {
+						return nil, false, notEval("index of %T", a)
+					}
+					if i < 0 || i >= int64(len(sl.L)) {
+						return nil, false, panics("index out of range [%d] with length %d", i, len(sl.L))
+					}
+					env[x] = copyVal(sl.L[i].V)
+				case *ssa.Lookup:
+					a, e := val(x.X)
 					if e != nil {
-						okAll = false
+						return nil, false, e
 					}
-					fv = v
-				}
-				if okAll {
-					ccCopy := cc
-					defers = append(defers, func() *EvalError {
-						_, e := ev.callCommon(&ccCopy, func(v ssa.Value) (any, *EvalError) {
-							if r, ok := frozen[v]; ok {
-								return r, nil
+					if _, isMapT := x.X.Type().Underlying().(*types.Map); isMapT {
+						kv, e := val(x.Index)
+						if e != nil {
+							return nil, false, e
+						}
+						var got any
+						found := false
+						if m, ok := a.(*EMap); ok && m != nil {
+							k, okk := mapKey(kv)
+							if !okk {
+								return nil, false, notEval("map key %T", kv)
 							}
-							if v == ccCopy.Value && fv != nil {
-								return fv, nil
-							}
-							return val(v)
-						}, depth)
-						return e
-					})
-				}
-			case *ssa.RunDefers:
-				for i := len(defers) - 1; i >= 0; i-- {
-					if e := defers[i](); e != nil && e.Panic {
-						return nil, e
+							got, found = m.M[k]
+						}
+						if !found {
+							got = ZeroOf(x.X.Type().Underlying().(*types.Map).Elem())
+						}
+						if x.CommaOk {
+							env[x] = ETuple{copyVal(got), found}
+						} else {
+							env[x] = copyVal(got)
+						}
+						break
 					}
-				}
-				defers = nil
-			case *ssa.Extract:
-				o, e := val(x.Tuple)
-				if e != nil {
-					return nil, e
-				}
-				t, ok := o.(ETuple)
-				if !ok || x.Index >= len(t) {
-					return nil, notEval("extract from %T", o)
-				}
-				env[x] = t[x.Index]
-			case *ssa.Call:
-				r, e := ev.call(x, val, depth)
-				if e != nil {
-					return nil, e
-				}
-				env[x] = r
-			case *ssa.If:
-				cv, e := val(x.Cond)
-				if e != nil {
-					return nil, e
-				}
-				bv, ok := cv.(bool)
-				if !ok {
-					return nil, notEval("condition %T", cv)
-				}
-				if bv {
+					s, ok := a.(string)
+					if !ok {
+						return nil, false, notEval("lookup in %T", a)
+					}
+					iv, e := val(x.Index)
+					if e != nil {
+						return nil, false, e
+					}
+					i, _ := iv.(int64)
+					if i < 0 || i >= int64(len(s)) {
+						return nil, false, panics("index out of range [%d] with length %d", i, len(s))
+					}
+					env[x] = int64(s[i])
+				case *ssa.Slice:
+					a, e := val(x.X)
+					if e != nil {
+						return nil, false, e
+					}
+					get := func(v ssa.Value, def int64) (int64, *EvalError) {
+						if v == nil {
+							return def, nil
+						}
+						r, e := val(v)
+						if e != nil {
+							return 0, e
+						}
+						i, ok := r.(int64)
+						if !ok {
+							return 0, notEval("slice bound %T", r)
+						}
+						return i, nil
+					}
+					switch s := a.(type) {
+					case string:
+						lo, e := get(x.Low, 0)
+						if e != nil {
+							return nil, false, e
+						}
+						hi, e := get(x.High, int64(len(s)))
+						if e != nil {
+							return nil, false, e
+						}
+						if lo < 0 || hi < lo || hi > int64(len(s)) {
+							return nil, false, panics("slice bounds out of range [%d:%d] with length %d", lo, hi, len(s))
+						}
+						env[x] = s[lo:hi]
+					case *ESlice, *EPtr:
+						var sl *ESlice
+						if p, isP := s.(*EPtr); isP {
+							if p != nil {
+								sl, _ = p.Get().(*ESlice)
+							}
+						} else {
+							sl = s.(*ESlice)
+						}
+						if sl == nil {
+							return nil, false, notEval("slice of %T", a)
+						}
+						lo, e := get(x.Low, 0)
+						if e != nil {
+							return nil, false, e
+						}
+						hi, e := get(x.High, int64(len(sl.L)))
+						if e != nil {
+							return nil, false, e
+						}
+						if lo < 0 || hi < lo || hi > int64(cap(sl.L)) {
+							return nil, false, panics("slice bounds out of range [%d:%d] with capacity %d", lo, hi, cap(sl.L))
+						}
+						env[x] = &ESlice{L: sl.L[lo:hi]}
+					default:
+						return nil, false, notEval("slice of %T", a)
+					}
+				case *ssa.MakeSlice:
+					lv, e := val(x.Len)
+					if e != nil {
+						return nil, false, e
+					}
+					n, _ := lv.(int64)
+					if n < 0 || n > 1<<20 {
+						return nil, false, panics("makeslice: len out of range")
+					}
+					sl := &ESlice{}
+					el := x.Type().Underlying().(*types.Slice).Elem()
+					for i := int64(0); i < n; i++ {
+						sl.L = append(sl.L, &ELoc{ZeroOf(el)})
+					}
+					env[x] = sl
+				case *ssa.Convert:
+					o, e := val(x.X)
+					if e != nil {
+						return nil, false, e
+					}
+					r, e := convert(x, o)
+					if e != nil {
+						return nil, false, e
+					}
+					env[x] = r
+				case *ssa.ChangeType:
+					o, e := val(x.X)
+					if e != nil {
+						return nil, false, e
+					}
+					env[x] = o
+				case *ssa.MakeInterface:
+					o, e := val(x.X)
+					if e != nil {
+						return nil, false, e
+					}
+					if _, isI := x.X.Type().Underlying().(*types.Interface); isI || o == nil && isPointerLike(x.X.Type()) && false {
+						env[x] = o
+					} else if _, already := o.(*EIface); already {
+						env[x] = o
+					} else {
+						env[x] = &EIface{T: x.X.Type(), V: o}
+					}
+				case *ssa.ChangeInterface:
+					o, e := val(x.X)
+					if e != nil {
+						return nil, false, e
+					}
+					env[x] = o
+				case *ssa.TypeAssert:
+					o, e := val(x.X)
+					if e != nil {
+						return nil, false, e
+					}
+					var res any
+					ok := false
+					switch v := o.(type) {
+					case nil:
+					case *EIface:
+						if it, isI := x.AssertedType.Underlying().(*types.Interface); isI {
+							if types.Implements(v.T, it) {
+								res, ok = v, true
+							}
+						} else if types.Identical(v.T, x.AssertedType) {
+							res, ok = v.V, true
+						}
+					default:
+						return nil, false, notEval("type assertion on %T", o)
+					}
+					if x.CommaOk {
+						if !ok {
+							res = ZeroOf(x.AssertedType)
+						}
+						env[x] = ETuple{res, ok}
+					} else {
+						if !ok {
+							return nil, false, panics("interface conversion fails")
+						}
+						env[x] = res
+					}
+				case *ssa.MakeMap:
+					env[x] = &EMap{M: map[any]any{}}
+				case *ssa.MapUpdate:
+					mv, e := val(x.Map)
+					if e != nil {
+						return nil, false, e
+					}
+					kv, e := val(x.Key)
+					if e != nil {
+						return nil, false, e
+					}
+					vv, e := val(x.Value)
+					if e != nil {
+						return nil, false, e
+					}
+					m, ok := mv.(*EMap)
+					if !ok || m == nil {
+						return nil, false, panics("assignment to entry in nil map")
+					}
+					k, okk := mapKey(kv)
+					if !okk {
+						return nil, false, notEval("map key %T", kv)
+					}
+					if _, had := m.M[k]; !had {
+						m.Keys = append(m.Keys, k)
+					}
+					m.M[k] = copyVal(vv)
+				case *ssa.MakeClosure:
+					cl := &EClosure{Fn: x.Fn.(*ssa.Function)}
+					for _, b := range x.Bindings {
+						bv, e := val(b)
+						if e != nil {
+							return nil, false, e
+						}
+						cl.Free = append(cl.Free, bv)
+					}
+					env[x] = cl
+				case *ssa.Range:
+					o, e := val(x.X)
+					if e != nil {
+						return nil, false, e
+					}
+					if m, isM := o.(*EMap); isM || (o == nil && isMapType(x.X.Type())) {
+						it := &mapIter{m: m}
+						if m != nil {
+							it.keys = append(it.keys, m.Keys...)
+							sort.SliceStable(it.keys, func(i, j int) bool { return fmt.Sprint(it.keys[i]) < fmt.Sprint(it.keys[j]) })
+						}
+						env[x] = it
+						break
+					}
+					str, ok := o.(string)
+					if !ok {
+						return nil, false, notEval("range over %T", o)
+					}
+					env[x] = &strIter{s: str}
+				case *ssa.Next:
+					o, e := val(x.Iter)
+					if e != nil {
+						return nil, false, e
+					}
+					if mi, isM := o.(*mapIter); isM {
+						for mi.pos < len(mi.keys) {
+							k := mi.keys[mi.pos]
+							mi.pos++
+							if v, still := mi.m.M[k]; still {
+								env[x] = ETuple{true, k, copyVal(v)}
+								goto nextDone
+							}
+						}
+						env[x] = ETuple{false, nil, nil}
+					nextDone:
+						break
+					}
+					it, ok := o.(*strIter)
+					if !ok || !x.IsString {
+						return nil, false, notEval("next of %T", o)
+					}
+					if it.pos >= len(it.s) {
+						env[x] = ETuple{false, int64(0), int64(0)}
+					} else {
+						r, w := utf8.DecodeRuneInString(it.s[it.pos:])
+						env[x] = ETuple{true, int64(it.pos), int64(r)}
+						it.pos += w
+					}
+				case *ssa.Defer:
+					// arguments are evaluated now, the call is made when the function returns
+					cc := x.Call
+					frozen := map[ssa.Value]any{}
+					okAll := true
+					for _, a := range cc.Args {
+						v, e := val(a)
+						if e != nil {
+							okAll = false
+							break
+						}
+						frozen[a] = v
+					}
+					var fv any
+					if okAll && cc.StaticCallee() == nil && !cc.IsInvoke() {
+						v, e := val(cc.Value)
+						if e != nil {
+							okAll = false
+						}
+						fv = v
+					}
+					if okAll {
+						ccCopy := cc
+						defers = append(defers, func() *EvalError {
+							_, e := ev.callCommon(&ccCopy, func(v ssa.Value) (any, *EvalError) {
+								if r, ok := frozen[v]; ok {
+									return r, nil
+								}
+								if v == ccCopy.Value && fv != nil {
+									return fv, nil
+								}
+								return val(v)
+							}, depth)
+							return e
+						})
+					}
+				case *ssa.RunDefers:
+					for i := len(defers) - 1; i >= 0; i-- {
+						if e := defers[i](); e != nil && e.Panic {
+							return nil, false, e
+						}
+					}
+					defers = nil
+				case *ssa.Extract:
+					o, e := val(x.Tuple)
+					if e != nil {
+						return nil, false, e
+					}
+					t, ok := o.(ETuple)
+					if !ok || x.Index >= len(t) {
+						return nil, false, notEval("extract from %T", o)
+					}
+					env[x] = t[x.Index]
+				case *ssa.Call:
+					r, e := ev.call(x, val, depth)
+					if e != nil {
+						return nil, false, e
+					}
+					env[x] = r
+				case *ssa.If:
+					cv, e := val(x.Cond)
+					if e != nil {
+						return nil, false, e
+					}
+					bv, ok := cv.(bool)
+					if !ok {
+						return nil, false, notEval("condition %T", cv)
+					}
+					if bv {
+						next = b.Succs[0]
+					} else {
+						next = b.Succs[1]
+					}
+				case *ssa.Jump:
 					next = b.Succs[0]
-				} else {
-					next = b.Succs[1]
-				}
-			case *ssa.Jump:
-				next = b.Succs[0]
-			case *ssa.Return:
-				if len(x.Results) == 0 {
-					return nil, nil
-				}
-				if len(x.Results) == 1 {
-					r, e := val(x.Results[0])
-					return r, e
-				}
-				var t ETuple
-				for _, rv := range x.Results {
-					r, e := val(rv)
-					if e != nil {
-						return nil, e
+				case *ssa.Return:
+					if len(x.Results) == 0 {
+						return nil, true, nil
 					}
-					t = append(t, r)
+					if len(x.Results) == 1 {
+						r, e := val(x.Results[0])
+						return r, true, e
+					}
+					var t ETuple
+					for _, rv := range x.Results {
+						r, e := val(rv)
+						if e != nil {
+							return nil, false, e
+						}
+						t = append(t, r)
+					}
+					return t, true, nil
+				case *ssa.Panic:
+					return nil, false, panics("explicit panic")
+				default:
+					return nil, false, notEval("instruction %T", in)
 				}
-				return t, nil
-			case *ssa.Panic:
-				return nil, panics("explicit panic")
-			default:
-				return nil, notEval("instruction %T", in)
+				return nil, false, nil
+			}()
+			if serr != nil {
+				if ev.tolerant && !serr.Panic {
+					if v, isVal := in.(ssa.Value); isVal {
+						env[v] = poison{}
+						continue
+					}
+					if st, isSt := in.(*ssa.Store); isSt {
+						if a, e := val(st.Addr); e == nil {
+							if p, ok := a.(*EPtr); ok && p != nil {
+								p.Set(poison{})
+							}
+						}
+						continue
+					}
+				}
+				return nil, serr
+			}
+			if returned {
+				return ret, nil
 			}
 		}
 		if next == nil {
@@ -1325,6 +1364,13 @@ func (ev *Evaluator) callCommon(cc *ssa.CallCommon, val func(ssa.Value) (any, *E
 // callFunction calls a function by its SSA value: a body of the module (or a synthetic wrapper) is evaluated,
 // anything else is answered by the hooks and the library table.
 func (ev *Evaluator) callFunction(g *ssa.Function, args []any, depth int) (any, *EvalError) {
+	if g.Name() == "init" && g.Pkg != nil && g.Signature.Recv() == nil && g == g.Pkg.Func("init") {
+		if strings.HasPrefix(g.Pkg.Pkg.Path(), ModPath) {
+			ev.runInit(g.Pkg)
+			return nil, nil
+		}
+		return nil, nil // the initialiser of a library package: nothing the module's values depend on is modelled
+	}
 	if g.Blocks != nil && (InModule(g) || g.Pkg == nil) {
 		return ev.Call(g, args, depth+1)
 	}
@@ -1345,13 +1391,18 @@ func (ev *Evaluator) callFunction(g *ssa.Function, args []any, depth int) (any, 
 		if !ok || recv == nil {
 			return nil, notEval("accumulator method on %T", args[0])
 		}
-		if ev.bufs == nil {
-			ev.bufs = map[*EPtr]*[]byte{}
+		// the accumulator is identified by the struct value it lives in (a field address is a new pointer each time)
+		home, isStruct := recv.Get().(*EStruct)
+		if !isStruct {
+			return nil, notEval("accumulator stored as %T", recv.Get())
 		}
-		buf := ev.bufs[recv]
+		if ev.bufs == nil {
+			ev.bufs = map[*EStruct]*[]byte{}
+		}
+		buf := ev.bufs[home]
 		if buf == nil {
 			buf = new([]byte)
-			ev.bufs[recv] = buf
+			ev.bufs[home] = buf
 		}
 		switch g.Name() {
 		case "WriteByte":
@@ -1854,4 +1905,61 @@ func libraryCall(name string, args []any) (any, *EvalError, bool) {
 		}
 	}
 	return nil, nil, false
+}
+
+
+// runInit evaluates the initialiser of a module package once, tolerantly: what cannot be evaluated (a regular
+// expression compiled at start-up, a table filled from another package) poisons the variables it is stored into,
+// and only a read of such a variable ends an evaluation.
+func (ev *Evaluator) runInit(pkg *ssa.Package) {
+	if ev.inited == nil {
+		ev.inited = map[*ssa.Package]bool{}
+	}
+	if ev.inited[pkg] {
+		return
+	}
+	ev.inited[pkg] = true
+	fn := pkg.Func("init")
+	if fn == nil || fn.Blocks == nil {
+		return
+	}
+	savedT, savedS := ev.tolerant, ev.Steps
+	ev.tolerant, ev.Steps = true, 3000000
+	ev.callWith(fn, nil, nil, 0)
+	ev.tolerant, ev.Steps = savedT, savedS
+}
+
+func (ev *Evaluator) globalCell(g *ssa.Global) (*ELoc, *EvalError) {
+	ev.runInit(g.Pkg)
+	if ev.globals == nil {
+		ev.globals = map[*ssa.Global]*ELoc{}
+	}
+	loc := ev.globals[g]
+	if loc == nil {
+		loc = &ELoc{V: ZeroOf(g.Type().Underlying().(*types.Pointer).Elem())}
+		ev.globals[g] = loc
+	}
+	if _, bad := loc.V.(poison); bad && !ev.tolerant {
+		return nil, notEval("package-level variable %s is initialised by code the evaluator cannot read", g.Name())
+	}
+	return loc, nil
+}
+
+// Method calls the named method of the value an interface value holds (as an interface method call would).
+func (ev *Evaluator) Method(prog *ssa.Program, recv any, name string, args ...any) (any, *EvalError) {
+	ifc, ok := recv.(*EIface)
+	if !ok {
+		return nil, notEval("method %s on %T", name, recv)
+	}
+	ms := prog.MethodSets.MethodSet(ifc.T)
+	for i := 0; i < ms.Len(); i++ {
+		if sel := ms.At(i); sel.Obj().Name() == name {
+			m := prog.MethodValue(sel)
+			if m == nil {
+				return nil, notEval("method %s has no body", name)
+			}
+			return ev.callFunction(m, append([]any{ifc.V}, args...), 0)
+		}
+	}
+	return nil, notEval("no method %s on %s", name, ifc.T)
 }
